@@ -3,10 +3,13 @@
   of the record being appended recovers exactly the complete records before it, and what the replay
   does with the records (each record runs in the database named by the last SELECT record — repaired
   upstream —, relative deadlines are re-based). Witnesses of the inputs on which the full durability statement fails (each one a class
-  of Known.lean). Helper lemmas live in Lemmas/PersistLemmas.lean.
+  of Known.lean). The positive half — a restart serves exactly the state the server held, whatever the
+  restart clock — is `restore_clean_partial` (clock-free commands, no deadlines). Helper lemmas live in
+  Lemmas/PersistLemmas.lean, ReplayLemmas.lean, NowFree.lean and NoExpiryTable.lean.
 -/
 import SugarModel.Lemmas.PersistLemmas
 import SugarModel.Lemmas.ReplayLemmas
+import SugarModel.Lemmas.NoExpiryTable
 import SugarModel.Spec.Durable
 import SugarModel.Props.C20
 namespace Sugar.Props.C02
@@ -289,6 +292,122 @@ theorem first_write_lands_in_its_database (now : Int) (db : Nat) (k v : Bytes)
   rw [logAppend_fresh]
   obtain ⟨s', h1, h2, h3, _⟩ := write_under_select_lands_in_that_database now db k v h9 hv
   exact ⟨s', h1, h2, h3⟩
+
+/-! ### a restart serves exactly the dataset the server held (clock-free commands) -/
+
+/-- the guard of the replay: an argument word names a key of database `d` holding a `[]interface{}`
+    (such values come only from a JSON preamble; the model declines to follow commands on them) -/
+def argHoldsIlist (s : State) (d : Nat) (cmd : List Bytes) : Bool :=
+  (cmd.drop 1).any fun k => match s.lookup d k with | some ⟨.ilist _, _⟩ => true | _ => false
+
+/-- the original execution: a caller in database `d` runs the commands one after the other, the
+    `i`-th at clock reading `now_i`; `none` unless every command completes (no panic, nothing outside
+    the model) -/
+def origRun (d : Nat) : List (List Bytes × Int) → State → Option State
+  | [], s => some s
+  | (cmd, now) :: r, s =>
+    if argHoldsIlist s d cmd then none else
+    match step { db := d, now := now, conn := some 0 } s cmd with
+    | some (s', .done _) => origRun d r s'
+    | _ => none
+
+theorem argHoldsIlist_false (s : State) (d : Nat) (cmd : List Bytes) (h : argHoldsIlist s d cmd = false) :
+    ∀ x ∈ cmd.drop 1, ∀ xs e, s.lookup d x ≠ some ⟨.ilist xs, e⟩ := by
+  intro x hx xs e heq
+  have : argHoldsIlist s d cmd = true := by
+    unfold argHoldsIlist
+    rw [List.any_eq_true]
+    exact ⟨x, hx, by simp [heq]⟩
+  rw [h] at this
+  exact absurd this (by simp)
+
+/-- the replay of the logged commands at ANY restart time recomputes the original execution, state for
+    state: on a keyspace without deadlines a clock-free command does not see the clock -/
+theorem replay_recomputes_original (now' : Int) (d : Nat) : ∀ (run : List (List Bytes × Int)) (s sF : State),
+    s.NoDeadlines →
+    (∀ x ∈ run, ClockFree x.1 ∧ toLower (x.1.headD []) ≠ b "select") →
+    origRun d run s = some sF →
+    replay now' (d : Int) ((run.map (·.1)).map .cmd) s = .ok sF := by
+  intro run
+  induction run with
+  | nil =>
+    intro s sF _ _ h
+    simp only [origRun, Option.some.injEq] at h
+    simp [replay, h]
+  | cons x r ih =>
+    intro s sF hs hcf h
+    obtain ⟨cmd, now⟩ := x
+    obtain ⟨hc1, hc2⟩ := hcf (cmd, now) List.mem_cons_self
+    unfold origRun at h
+    split at h
+    · simp at h
+    · rename_i hguard
+      simp only [Bool.not_eq_true] at hguard
+      split at h
+      · rename_i s1 res hstep
+        cases cmd with
+        | nil => simp [step, progOf] at hstep
+        | cons name args =>
+          have hctx : Ctx.SameButClock { db := d, now := now, conn := some 0 } { db := d, now := now', conn := some 0 } :=
+            ⟨rfl, rfl, rfl⟩
+          obtain ⟨heq, hnd⟩ := step_now_irrelevant _ _ hctx (name :: args) hc1 s hs
+          have hsel : (eqFold name (b "select") && isAscii name) = false := by
+            have h1 : toLower (b "select") = b "select" := by decide
+            have h2 : eqFold name (b "select") = false := by
+              simp only [eqFold, h1, beq_eq_false_iff_ne, ne_eq]
+              simpa using hc2
+            simp [h2]
+          simp only [List.map_cons]
+          rw [replay_cmd_done now' d name args _ s s1 res hsel
+            (by simpa using argHoldsIlist_false s d (name :: args) hguard) (by rw [← heq]; exact hstep)]
+          exact ih s1 sF (hnd s1 _ hstep) (fun y hy => hcf y (List.mem_cons_of_mem _ hy)) h
+      · simp at h
+
+/-- **A restart serves exactly the keyspace the server held** (clock-free commands, one database).
+    Let a caller in database `d` execute, starting from the empty keyspace, the commands of `run` — each
+    at its own clock reading —, every one of them clock-free (word outside `envSensitive` and
+    `expirySetters`, or a plain `SET key value`), none of them SELECT, all completing. The log holds
+    the marker of `d` and their records, possibly followed by a torn record. Then a restore at ANY
+    restart time `now'` yields EXACTLY the state the server held — the same `State` (every database,
+    key, value, type, absence of deadlines, volatile index, accounted memory), not merely the same
+    lookups — whatever the clock says at restart. -/
+theorem restore_clean_partial (d : Nat) (hd : (d : Int) ≤ maxInt64) (run : List (List Bytes × Int)) (sF : State)
+    (hcf : ∀ x ∈ run, ClockFree x.1 ∧ toLower (x.1.headD []) ≠ b "select")
+    (horig : origRun d run { dbs := [], mem := 0 } = some sF)
+    (now' : Int) (c : List Bytes) (t u : Bytes) (ht : t ++ u = encodeCmd c) (hu : u ≠ []) :
+    restore now' (some []) (selectMarker d ++ (((run.map (·.1)).map encodeCmd).flatten ++ t)) = .ok sF := by
+  have hlog : selectMarker d ++ (((run.map (·.1)).map encodeCmd).flatten ++ t) =
+      (([b "SELECT", fmtInt d] :: run.map (·.1)).map encodeCmd).flatten ++ t := by
+    rw [selectMarker_eq_record]; simp
+  rw [hlog, crash_recovery_replays_prefix now' _ c t u ht hu]
+  simp only [List.map_cons]
+  rw [replay_select_sets_database now' 0 _ _ _ _ (parseInt64_fmtNat d hd)]
+  exact replay_recomputes_original now' d run _ sF noDeadlines_empty hcf horig
+
+/-- non-vacuity: a log mixing families (string, list, hash, set, counter) executed in database 2 at five
+    different instants, cut inside a sixth record; at every restart time the restore is exactly the
+    state the server held, and that state holds the five keys -/
+example :
+    let run : List (List Bytes × Int) :=
+      [([b "SET", b "k", b "v"], 1000), ([b "rpush", b "l", b "a", b "b"], 2000), ([b "hset", b "h", b "f", b "1"], 3000),
+       ([b "sadd", b "s", b "m"], 4000), ([b "incr", b "n"], 5000)]
+    let sF := (origRun 2 run { dbs := [], mem := 0 }).getD { dbs := [], mem := 0 }
+    (∀ now', restore now' (some [])
+        (selectMarker 2 ++ (((run.map (·.1)).map encodeCmd).flatten ++ (encodeCmd [b "SET", b "x", b "y"]).take 11)) = .ok sF) ∧
+    (sF.db 2).store.map (·.1) = [b "k", b "l", b "h", b "s", b "n"] := by
+  intro run sF
+  have horig : origRun 2 run { dbs := [], mem := 0 } = some sF := by decide +kernel
+  refine ⟨fun now' => ?_, by decide +kernel⟩
+  refine restore_clean_partial 2 (by decide) run sF ?_ horig now' [b "SET", b "x", b "y"] _
+    ((encodeCmd [b "SET", b "x", b "y"]).drop 11) (List.take_append_drop _ _) (by decide)
+  intro x hx
+  simp only [run, List.mem_cons, List.not_mem_nil, or_false] at hx
+  rcases hx with rfl | rfl | rfl | rfl | rfl
+  · exact ⟨Or.inr ⟨_, _, _, rfl, by decide⟩, by decide⟩
+  · exact ⟨Or.inl (by decide), by decide⟩
+  · exact ⟨Or.inl (by decide), by decide⟩
+  · exact ⟨Or.inl (by decide), by decide⟩
+  · exact ⟨Or.inl (by decide), by decide⟩
 
 /-- **A relative deadline is re-based at restore time** — the universally quantified statement of
     the defect: for every key, string value, span `n` and restart instant `now`, the log record
